@@ -1,6 +1,24 @@
 HOOK_COMMITS = ["91ffc11"]
 NOT_APPLICABLE = {}
 ENTRIES = {
+    "C10": {
+        "text": "Theorems about the event-driven model of EyeballSet::finish for every attempt list and configuration (result "
+                "correctness: first success wins, failure only after all candidates failed with the first error, timeout only at the "
+                "deadline, no-progress iff no candidates); the model is tied to the real EyeballSet under tokio's paused clock by "
+                "differential runs (random + full grid n<=3), and a decidable C10 specification is evaluated on every implementation trace.",
+        "note": "Trusted: Lean kernel; tokio timer/FuturesUnordered semantics as listed in DESIGN.md §C10 (validated by the "
+                "correspondence, not proved); exact ties between attempts are compared by specification only.",
+        "design_ref": "DESIGN.md §5 C10",
+    },
+    "C11": {
+        "text": "Theorems for every attempt list and configuration: attempts start in the given order, each at most once (prefix of "
+                "the candidate list), the run finishes no later than the overall deadline, nothing starts after the end, pacing "
+                "invariants; the start/finish trace of the real EyeballSet (paused clock) is compared with the model's on every case, "
+                "and the TcpConnecting delay = timeout/n glue is observed through its trace event.",
+        "note": "Trusted: Lean kernel; tokio timer/FuturesUnordered semantics (validated by correspondence); attempts are 'started' "
+                "when first polled.",
+        "design_ref": "DESIGN.md §5 C11",
+    },
     "C08": {
         "text": "Theorems for every script of read events (every byte stream, every fragmentation, pendings anywhere): the model of "
                 "ReadVersion::poll answers HTTP/2 iff the stream begins with the 24-byte preface; the Rewind replays buffer++rest so "
